@@ -2,7 +2,7 @@
    Statements only.  `lex_items` is the model of GoldLexer::lex that also keeps the skipped
    whitespace and the chunk of text each item consumed; `lex` (what the code returns) is its
    projection to tokens and errors. *)
-From GoldV Require Import Base Tokens Keywords Lexer LexerProofs Unlex UnlexProofs.
+From GoldV Require Import Base Tokens Keywords Lexer LexerProofs Unlex UnlexProofs UnlexImage.
 
 (* what the implementation returns is the projection of the item list *)
 Theorem C05_lex_is_projection :
@@ -111,6 +111,17 @@ Theorem C05_lexeme_context_free : forall t off st rest, printable t = true ->
               Some (ITok (create_token st off (fst t) (snd t)) (spell t), st', lx_sep t :: rest).
 Proof. exact lex_step_lexeme. Qed.
 
+(* ... and conversely `printable` is exactly the image of the lexer: every token reported for ANY text is a
+   printable lexeme, so printing the tokens of a text and lexing the print gives the same tokens (type and value)
+   again, without a lexical error: a normal form of the text as far as the lexer can see *)
+Theorem C05_lexemes_printable : forall text, forallb printable (map lx_obs (fst (lex text))) = true.
+Proof. exact lexemes_printable. Qed.
+
+Theorem C05_relex_normal_form : forall text,
+  let lx := map lx_obs (fst (lex text)) in
+  map lx_obs (fst (lex (unlex lx))) = lx /\ snd (lex (unlex lx)) = [].
+Proof. exact relex_normal_form. Qed.
+
 (*  class aX 'it''s<LF>x' ; note<LF> x := y1 << 2 <= 3.5 # foo ( )  *)
 Example C05_unlex_nonvacuous :
   let ts := [(TClass, [67;108;65;115;115]); (TIdentifier, [97;88]); (TStringLiteral, [105;116;39;115;10;120]);
@@ -141,3 +152,5 @@ Print Assumptions C05_nonvacuous.
 Print Assumptions C05_lex_unlex.
 Print Assumptions C05_lexeme_context_free.
 Print Assumptions C05_unlex_nonvacuous.
+Print Assumptions C05_lexemes_printable.
+Print Assumptions C05_relex_normal_form.
